@@ -564,13 +564,17 @@ func (h *harness) replayOne(family, base, text string) {
 	default:
 		res = decodeAll(text, base, false)
 	}
-	fmt.Printf("replay %s base=%q\n  html: %s\n  go: %s err=%q panic=%q\n", family, base, text, showQuads(res.quads), res.err, res.panic)
+	if !h.quiet {
+		fmt.Printf("replay %s base=%q\n  html: %s\n  go: %s err=%q panic=%q\n", family, base, text, showQuads(res.quads), res.err, res.panic)
+	}
 	h.rep.Eval(family+text, true)
 	if line != "" && !*nomodel {
 		ans, err := h.drv.Run([]string{line})
 		if err == nil {
 			if model, ok, err := parseDenoteAnswer(ans[0]); err == nil && ok {
-				fmt.Printf("  model: %s\n", showQuads(newBnSpace().quads(model, "")))
+				if !h.quiet {
+					fmt.Printf("  model: %s\n", showQuads(newBnSpace().quads(model, "")))
+				}
 				var preds []string
 				if strings.HasPrefix(family, "rdfa") {
 					preds = rdfaPreds(doc, base)
@@ -588,6 +592,9 @@ func (h *harness) replayOne(family, base, text string) {
 func (h *harness) replayFile(path string) {
 	b, err := os.ReadFile(path)
 	if err != nil {
+		if h.quiet {
+			return // no corpus file
+		}
 		fmt.Fprintln(os.Stderr, err)
 		os.Exit(2)
 	}
